@@ -8,6 +8,8 @@ def spec(th, seed):
     # the same monitor is built for both quaternion memory layouts with identical workload (same seed -> same inputs)
     units = [U('C04_rotation.xyzw', SRC, 'plain', libs=LIBS),
              U('C04_rotation.wxyz', SRC, 'plain', defs=WXYZ, libs=LIBS)]
+    # four-scalar constructor taking (x,y,z,w): the monitor builds quaternions through qua::wxyz, glm's own internal constructor calls must not depend on the order
+    units.append(U('C04_rotation.ctor-xyzw', SRC, 'plain', defs=['-DGLM_FORCE_QUAT_DATA_XYZW'], scale=0.3, libs=LIBS))
     if th:
         units.append(U('C04_rotation.xyzw.clang', SRC, 'clang', scale=0.15, libs=LIBS))
         units.append(U('C04_rotation.wxyz.clang', SRC, 'clang', defs=WXYZ, scale=0.15, libs=LIBS))
